@@ -5,7 +5,7 @@ sys.path.insert(0, os.path.dirname(os.path.abspath(__file__)))
 import vlib, scen, lcheck
 
 PID = "C05"
-FRESH = ["badsig", "wrongkey", "missingsig", "nosig", "extrasig", "wrongchain", "saltearly", "saltlate", "rcdswap", "content"]
+FRESH = ["badsig", "wrongkey", "missingsig", "nosig", "noext", "emptyext", "saltonlyext", "extrasig", "wrongchain", "saltearly", "saltlate", "rcdswap", "content"]
 EDGE_OK = ["saltedge-", "saltedge+"]
 # approximate bit lengths of the parts of a one-transaction entry (the harness reduces modulo the real length)
 BITS = {"content": 1700, "ext0": 80, "ext1": {"ed": 264, "rcde": 520}, "ext2": {"ed": 512, "rcde": 512}}  # rcde ext2: last byte excluded for fresh entries
